@@ -21,3 +21,10 @@ E1_TRUSTED = ["z3 as the deciding solver", "vf/pyvc symbolic semantics of the Py
 E1_ASSUMPTIONS = ["partial correctness only (termination not proved)",
                   "hashable names are abstract atoms; set/dict iteration order is arbitrary; lists are abstracted to their membership",
                   "networkx representation invariant E(u,v) => u,v are nodes (assumed for graph parameters)"]
+
+# frame obligations (vf/pyvc/frames.py) per property: predicate on the task name
+FRAMES = {
+    "C04": lambda name: not name.startswith("TabularCPD."),
+    "C05": lambda name: name.startswith("TabularCPD."),
+    "C16": lambda name: True,
+}
